@@ -236,6 +236,9 @@ def c11_models(tier):
             Rec(t=exp[2], kind="d", c="U19", bid=0, ask=0)]
     ms.append(full_model("roll-latency", cs, ["S1", "CH"], g2, ev2, tg[:3], lats=(60,), delays=(0, 1), fees="free", maxsteps=3,
                          **kw))
+    # a no-trade threshold: the old lead is closed at the roll even when its weight is below the threshold
+    ms.append(full_model("roll-small", cs, ["S1", "CH"], grid, ev, [{"CH": H}, {"CH": F(1, 32)}, {"CH": F(-1, 32)}], lats=(0,),
+                         delays=(0,), fees="free", thr=F(1, 16), maxsteps=5, **kw))
     if tier != "quick":
         ms.append(full_model("roll-thr", cs, ["S1", "CH"], grid, ev, tg, lats=(0,), delays=(0,), fees="free", thr=F(1, 16),
                              maxsteps=6, **kw))
